@@ -105,9 +105,9 @@ CLAIMED["C15"] = (
 
 CLAIMED["C11"] = (
     "Lean 4 model IV.Serde of ContentProvider.write / universal-newline text load, the six serialize/deserialize pairs with the save-as rules, marshal/unmarshal, Hydration.dehydrate/hydrate and dr.run's pruning; theorems for all inputs; correspondence on real archives collected with the real spec factories and hydrated intact and corrupted",
-    "Proof: exact line round trip read(write ls) = dropOneTrailingEmpty ls IFF no line contains \\n or \\r (roundtrip_lines_iff); the save-as location rules and loaded location = written file for every kind and every normalised save_as; cmd/args equality for every kind except the container file; raw bytes identical; "
+    "Proof: exact line round trip read(write ls) = dropOneTrailingEmpty ls IFF no line contains \\n or \\r (roundtrip_lines_iff); the save-as location rules and loaded location = written file for every kind and every normalised save_as; raw bytes identical; "
     "element order kept by marshal and unmarshal; per-element content under distinct destinations; a document is written iff it has results or errors; errors of failed components are persisted; hydrate = filterMap loadOne as a map — bad entries (unreadable, not JSON, wrong shape, unknown name) are no-ops at any position, intact entries always load. "
-    "Partial with ¬Full witnesses replayed on the real code (known findings): container-file cmd dropped, destination collisions of multi-output specs under a directory-form save_as, split=False command content interleaved. Tied: four correspondence streams (~12000 compared answers per quick run).",
+    "cmd/args equality for EVERY kind incl. the container file (roundtrip_meta_full — full strength after repair a8098eb); an unsplit (split=False) command's string round-trips as its text-mode lines (unsplit_roundtrip — after repair fd0f959). Partial with a ¬Full witness replayed on the real code (known finding): destination collisions of multi-output specs under a directory-form save_as. Pooled collection (parallel run strategy) is compared with serial collection of the same specs. Tied: four correspondence streams (~12000 compared answers per quick run).",
     "Trusted: Lean kernel + propext/Classical.choice/Quot.sound; harness/c11.py (generators, adapter, canonicalisers, oracle; classification of a corrupted file); json, UTF-8 codec, file system and cp as parameters; CPython text I/O tied by the write/read stream only; content that is not valid Unicode is out of scope.",
     "DESIGN.md §6 C11")
 
@@ -154,6 +154,21 @@ CLAIMED["C12"] = (
     "(skips_name_missing_partial + witness, known finding skip-stub-anonymous). Tied: ~18k compared answers per quick run over 6 streams (repr length, constructors with the limit steered around the length, adapter options through real argparse, rule-set state, formatter output, adapters) + oracle on every case.",
     "Trusted: Lean kernel + propext/Classical.choice/Quot.sound; translate/responses.py (probing the live classes); harness/c12.py; run order handed over from the engine (C01); rule bodies are fixed actions (C02); values None/bool/int/str/list[str]; repr of non-ASCII assumed printable.",
     "DESIGN.md §6 C12")
+
+CLAIMED["C09"] = (
+    "Lean 4 state-machine model of the obfuscator databases (IPv4, host, MAC, IPv6, keyword); invariant by induction over histories of clean_content calls; regex recognisers are parameters, instantiated in the driver by a backtracking matcher run on the LIVE pattern strings; correspondence over histories",
+    "Proof (all histories, configs, recognisers): the databases only grow (db_grows) and are functional (db_functional); IPv4 and host substitutes are injective (db_injective_ip incl. text level below the 2^32 bound, db_injective_host: counter names are fresh and differ from the hashed system name); "
+    "mapping() equals the database, lists only originals that were found or the system name, and lists every found original (mapping_exact). text_consistent_partial is proved for the IPv4 stage under the exact no-collision hypothesis; the full statement TextConsistentFull is refuted by Lean witnesses replayed on the implementation "
+    "(five known findings: substitute collisions for IPv4 / MAC / host, short host name inside a substitute, host names replaced in order of appearance instead of longest first). Tied: outputs and all mapping() lists after every call vs the model; the matcher vs re on the live patterns; facts file and CSV reports vs mapping() on the implementation.",
+    "Trusted: Lean kernel + propext/Classical.choice/Quot.sound; Python re on the cleaner's patterns (a parameter of the theorems; the model matcher is validated against re every run); SHA-1 as a table, hex digests assumed; inet_aton/inet_ntoa tied only; width mode, regex exclusion patterns and non-ASCII case mapping are outside the model; harness/c09.py.",
+    "DESIGN.md §6 C09")
+CLAIMED["C10"] = (
+    "Lean 4 model of Cleaner.clean_content and ContentProvider.write with ONE fixed stage order; theorems about the function's shape (explicit state threading, monotone index map, blank collapse); determinism across hash seeds carried by the tie: every case is run in child interpreters under many PYTHONHASHSEEDs and must equal the model's single output",
+    "Proof: cleanContent = reverse . filterMap-with-state . reverse with the state threading explicit (cleanContent_eq_runUp); there is a strictly increasing index map and output line j is cleanLine of exactly input line idx[j] (clean_monotone); all-blank results collapse to [] (blank_collapses, blank_input_collapses); "
+    "under a host context an empty cleaned result is a content error and nothing is written (empty_not_stored, stored_has_nonblank); the stage list is a sublist of the one fixed order and depends only on the SET of no_obfuscate names. "
+    "Determinism is not a theorem about a Lean function (every Lean function is deterministic): it is the statement that the implementation equals this one function under every seed, checked by the tie — 1201 cases x 16 seeds quick (256 thorough), contents where obfuscators compete. Regression: fix 4df6a93 (set-ordered stages).",
+    "Trusted: Lean kernel + propext/Classical.choice/Quot.sound; the hash-seed tie (child interpreters) carries the determinism clause; regex and SHA-1 assumptions as for C09; the write path is exercised through DatasourceProvider; harness/c10.py.",
+    "DESIGN.md §6 C10")
 
 PENDING_REASON = "check not built yet in this round (planned: DESIGN.md §6); no claim is made until its model, theorems and correspondence run exist"
 
